@@ -119,6 +119,8 @@ func tupleWeight(arity int) float64 {
 	if arity < 14 {
 		return 0
 	}
+	// the cost is that of the deepest first difference explored (see firstDiffCap)
+	arity = min(arity, firstDiffCap()+1)
 	cost := 0.115
 	for n := 21; n > arity; n-- {
 		cost /= 2
@@ -146,7 +148,17 @@ func (d dom[T]) withRef(ref func(a, b T) int, ntRule string) dom[T] {
 	return d
 }
 
-func drawPair[T any](rt *rapid.T, d dom[T], rec *kit.Rec) (a, b T) {
+// salt shifts the random stream: all sub-checks of a shard run with the same
+// rapid seed, so without it the laws of one instance would all see the very
+// same sequence of pairs.
+func salt(rt *rapid.T, n int) {
+	for i := 0; i < n; i++ {
+		rapid.Uint64().Draw(rt, "salt")
+	}
+}
+
+func drawPair[T any](rt *rapid.T, d dom[T], rec *kit.Rec, law int) (a, b T) {
+	salt(rt, law)
 	a = d.gen.Draw(rt, "a")
 	k := rapid.IntRange(0, 9).Draw(rt, "bkind")
 	if k < 7 {
@@ -210,7 +222,7 @@ func runLaws[T any](t *testing.T, in inst[T]) {
 	pd := func(a, b T) string { return d.show(a) + " | " + d.show(b) }
 
 	kit.Check(t, in.name+"/trichotomy", pairRule+"; law: exactly one of Less(a,b), Less(b,a), Eqv(a,b); Eqv symmetric; Less irreflexive, Eqv reflexive", opt, func(rt *rapid.T, rec *kit.Rec) {
-		a, b := drawPair(rt, d, rec)
+		a, b := drawPair(rt, d, rec, 0)
 		rec.Case(d.nt(a, b), pd(a, b))
 		var lab, lba, e, eba, laa, eaa bool
 		rec.Guard(rt, sig("trichotomy"), func() {
@@ -258,7 +270,7 @@ func runLaws[T any](t *testing.T, in inst[T]) {
 	})
 
 	kit.Check(t, in.name+"/compare", pairRule+"; law: Compare(a,b)<0 iff Less(a,b), ==0 iff Eqv(a,b), >0 iff Less(b,a); LessEq(a,b) = Less(a,b) || Eqv(a,b)", opt, func(rt *rapid.T, rec *kit.Rec) {
-		a, b := drawPair(rt, d, rec)
+		a, b := drawPair(rt, d, rec, 1)
 		rec.Case(d.nt(a, b), pd(a, b))
 		var c int
 		var lab, lba, e, le bool
@@ -274,7 +286,7 @@ func runLaws[T any](t *testing.T, in inst[T]) {
 	})
 
 	kit.Check(t, in.name+"/minmax", pairRule+"; law: Min(a,b) and Max(a,b) are one of the two arguments; neither argument is Less than Min; Max is Less than neither argument (which of two equivalent arguments is returned is not demanded)", opt, func(rt *rapid.T, rec *kit.Rec) {
-		a, b := drawPair(rt, d, rec)
+		a, b := drawPair(rt, d, rec, 2)
 		rec.Case(d.nt(a, b), pd(a, b))
 		var mn, mx T
 		var aLmn, bLmn, mxLa, mxLb bool
@@ -298,7 +310,7 @@ func runLaws[T any](t *testing.T, in inst[T]) {
 	})
 
 	kit.Check(t, in.name+"/reference", pairRule+"; law: Less/Eqv/sign(Compare) equal the independently written reference order (lexicographic; None and nil first; Time by instant; key only for ContraMap style instances)", opt, func(rt *rapid.T, rec *kit.Rec) {
-		a, b := drawPair(rt, d, rec)
+		a, b := drawPair(rt, d, rec, 3)
 		rec.Case(d.nt(a, b), pd(a, b))
 		want := d.ref(a, b)
 		var c int
@@ -312,7 +324,7 @@ func runLaws[T any](t *testing.T, in inst[T]) {
 	})
 
 	kit.Check(t, in.name+"/reversed", pairRule+"; law: r := o.Reversed(): r.Less(a,b) = o.Less(b,a), sign(r.Compare(a,b)) = -sign(o.Compare(a,b)), r.Eqv(a,b) = o.Eqv(a,b)", opt, func(rt *rapid.T, rec *kit.Rec) {
-		a, b := drawPair(rt, d, rec)
+		a, b := drawPair(rt, d, rec, 4)
 		rec.Case(d.nt(a, b), pd(a, b))
 		var rl, re, lba, e bool
 		var rc, c int
@@ -332,7 +344,7 @@ func runLaws[T any](t *testing.T, in inst[T]) {
 	// and frequently disagrees with the primary on non-ties.
 	secCmp := func(a, b T) int { return strings.Compare(d.show(a), d.show(b)) }
 	kit.Check(t, in.name+"/thenComparing", pairRule+" (override of non-trivial: the reference ties a,b and their printed forms differ, or the reference does not tie them and the secondary orders them the other way); law: tc := o.ThenComparing(sec), sec = harness order on the printed form: if !o.Eqv(a,b) then tc agrees with o (Less, Eqv, sign of Compare) else tc agrees with sec", opt, func(rt *rapid.T, rec *kit.Rec) {
-		a, b := drawPair(rt, d, rec)
+		a, b := drawPair(rt, d, rec, 5)
 		sc := secCmp(a, b)
 		r := d.ref(a, b)
 		rec.Case((r == 0 && sc != 0) || (r != 0 && sc == -r), pd(a, b))
